@@ -154,10 +154,9 @@ def gen_args(rnd, k, long_ok=True):
     elif kind == "cow_array":
         el = [(f"std::borrow::Cow::Borrowed({lit(s)})" if i % 2 == 0 else f"std::borrow::Cow::Owned(String::from({lit(s)}))")
               for i, s in enumerate(strs)]
-        a.update(labels=strs, expr="[%s]" % ", ".join(el), param="&str")
-        a["aux"] = []
-        # the element type must be nameable for inference: Cow<'static, str>
-        a["expr"] = "{ let v: Vec<std::borrow::Cow<'static, str>> = vec![%s]; v }" % ", ".join(el)
+        # a block expression yielding Vec<Cow<'static, str>>
+        a.update(labels=strs, param="&str",
+                 expr="{ let v: Vec<std::borrow::Cow<'static, str>> = vec![%s]; v }" % ", ".join(el))
     elif kind == "box_str":
         a.update(labels=strs, expr="[%s]" % ", ".join(f"Box::<str>::from({lit(s)})" for s in strs), param="&Box<str>")
     elif kind in ("debug_enum", "debug_enum_ref"):
@@ -447,10 +446,18 @@ def gen_program(rnd, pid, crate, rich=True):
                 extra = [v for v in range(30, 90) if v not in consts][:20 - len(consts)]
                 consts = consts + extra
                 gen["consts"] = consts
+                if types:
+                    types = types[:1]
+                    gen["types"] = types
+            # bound the product (the cost of judging a run grows with the number of rows)
+            if types and len(types) * len(consts) > 16:
+                consts = consts[:max(1, 16 // len(types))]
+                gen["consts"] = consts
             gen["order"] = rnd.choice(["TC", "CT"])
         g["sig"] = rnd.choice(["plain", "bencher"])
         g["abi"] = rnd.choice([None] * 8 + ["C", "system"])
-        if rnd.random() < 0.4:
+        n_inst = (len(types) if types is not None else 1) * (len(consts) if consts is not None else 1)
+        if rnd.random() < 0.4 and n_inst <= 8:
             gen["kind"] = "args"
             g["arg"] = gen_args(rnd, f"g{len(groups)}", long_ok=False)
             gen["arg_kind"], gen["args"] = g["arg"]["arg_kind"], list(g["arg"]["labels"])
